@@ -84,7 +84,9 @@ Proof.
     repeat match goal with
            | H : _ && _ = true |- _ => apply andb_true_iff in H; destruct H
            end;
-    (eapply upd_le; [eassumption|]; first [apply none_not_succ; assumption | apply running_not_succ; assumption]).
+    (eapply upd_le; [eassumption|];
+     first [apply none_not_succ; assumption | apply running_not_succ; assumption
+           | match goal with n : node |- _ => destruct (nst n); simpl in *; try discriminate; reflexivity end]).
 Qed.
 
 Lemma recv_tbl : forall s s', recv s = Some s' -> tbl s' = tbl s /\ canc s' = canc s /\ serr s' = serr s /\ sph s' = sph s.
